@@ -930,6 +930,19 @@ func c11Get(r *core.Report, name, pos string, ps []paths.Path) {
 			}
 		}
 	}
+	// a blocking get returns with an element and not otherwise: on every feasible path that leaves the
+	// waiting loop without (another) Wait and returns, the head of a queue has been taken. (Paths that
+	// did wait re-test the loop condition as a whole; the paths that did not wait carry its atoms, and
+	// the loop is left the same way each time.)
+	for _, pa := range ps {
+		if len(pa) == 0 || pa[len(pa)-1].Kind != "RET" || pa.Has("WAIT") || pa.Has("CUT") || !pa.Consistent() {
+			continue
+		}
+		if !pa.Has("REMOVEFIRST") {
+			ok = false
+			why = append(why, "a path leaves the waiting loop and returns without having taken an element: the blocking get answers with nothing although it promised to wait for an element: "+pa.String())
+		}
+	}
 	if !sawWait {
 		ok = false
 		why = append(why, "blocking get never waits")
